@@ -506,13 +506,13 @@ func TestC03(t *testing.T) {
 			rl := g.c03Rule(i)
 			rules = append(rules, rl)
 			rs.Rules = append(rs.Rules, rl.config(map[string]any{"X-Rule": rl.ID, "X-Cap": "{{ .Request.URL.Captures | toJson }}"}))
-			for _, rt := range rl.Routes {
+			for ri, rt := range rl.Routes {
 				if rt.Decoy == "" {
 					continue
 				}
-				rs.Rules = append(rs.Rules, rconfig.Rule{ID: rl.ID + "-decoy", EncodedSlashesHandling: rconfig.EncodedSlashesHandling(rl.Slashes),
+				rs.Rules = append(rs.Rules, rconfig.Rule{ID: fmt.Sprintf("%s-decoy%d", rl.ID, ri), EncodedSlashesHandling: rconfig.EncodedSlashesHandling(rl.Slashes),
 					Matcher: rconfig.Matcher{Routes: []rconfig.Route{{Path: rt.Decoy}}, Methods: []string{"TRACE"}, BacktrackingEnabled: boolp(true)},
-					Execute: []config.MechanismConfig{{"authenticator": "anon"}, {"finalizer": "echo", "config": map[string]any{"headers": map[string]any{"X-Rule": rl.ID + "-decoy", "X-Cap": "{{ .Request.URL.Captures | toJson }}"}}}}})
+					Execute: []config.MechanismConfig{{"authenticator": "anon"}, {"finalizer": "echo", "config": map[string]any{"headers": map[string]any{"X-Rule": fmt.Sprintf("%s-decoy%d", rl.ID, ri), "X-Cap": "{{ .Request.URL.Captures | toJson }}"}}}}})
 			}
 		}
 		if err := a.Proc.OnCreated(rs); err != nil {
@@ -550,7 +550,7 @@ func TestC03(t *testing.T) {
 					r.Count("lookups_backtracking_from_static_decoy", 1)
 					if rq.Method == "TRACE" {
 						// the more specific decoy rule applies (its only condition is the method)
-						cs.ExpRule = rl.ID + "-decoy"
+						cs.ExpRule = fmt.Sprintf("%s-decoy%d", rl.ID, rl.Pick)
 						cs.ExpCaps = map[string]string{}
 						i := 0
 						for si, s := range rt.segs {
